@@ -189,6 +189,16 @@ def auth():
             argv('SET', 'k', 'a'), argv('GET', 'k'), argv('MULTI'), argv('EXEC'), argv('FLUSHALL'), argv('SELECT', '1'),
             argv('WATCH', 'k'), argv('QUIT'), argv('NOSUCH')]
 
+def aof(full):
+    A = [argv('SET', 'k', 'a'), argv('SADD', 's', 'a', 'b'), argv('SPOP', 's'), argv('SELECT', '1'), argv('SELECT', '0'),
+         argv('GETSET', 'k', 'b'), argv('RPUSH', 'l', 'a', 'b'), argv('BLPOP', 'm', 'l', '0'), argv('INCR', 'k'), argv('DEL', 'k', 's'),
+         argv('MULTI'), argv('EXEC'), argv('GET', 'k')]
+    if full:
+        A += [argv('HMSET', 'h', 'f', 'a'), argv('PEXPIRE', 'k', '100000'), argv('PERSIST', 'k'), argv('BRPOP', 'l', '0'), argv('FLUSHDB'),
+              argv('RENAME', 'k', 's'), argv('LPOP', 'l'), argv('SET', 'k', 'a', 'NX'), argv('EXPIRE', 'k', '0'), argv('DISCARD'),
+              argv('SPOP', 'k'), argv('APPEND', 'k', 'x'), argv('ZADD', 'z', '1', 'a'), argv('ZPOPMIN', 'z')]
+    return A
+
 def main():
     out = ['-------------------------------- MODULE Cats --------------------------------',
            '(* GENERATED by tools/gencat.py — argument-vector catalogues of the bounded instances. *)', '']
@@ -209,6 +219,8 @@ def main():
     out.append(cat('Cat_Auth', auth()))
     out.append(cat('Cat_PubSub', pubsub(True)))
     out.append(cat('Cat_PubSub_quick', pubsub(False)))
+    out.append(cat('Cat_Aof', aof(True)))
+    out.append(cat('Cat_Aof_quick', aof(False)))
     out.append('Pw == ' + lit('pw'))
     out.append('=============================================================================')
     p = os.path.join(os.path.dirname(os.path.abspath(__file__)), '..', 'spec', 'mc', 'Cats.tla')
